@@ -41,9 +41,13 @@ def main():
     with ThreadPoolExecutor(j) as ex:
         for name, r in ex.map(lambda n: run(n, tier), names):
             r['tier'] = tier; r['repo_head'] = head
-            res[name] = r
             print(name, r['status'], r.get('first_violation', '')[:1], flush=True)
-            json.dump(res, open(resf, 'w'), indent=1, sort_keys=True)
+            import fcntl
+            with open(resf + '.lock', 'w') as lk:        # several instances may run at once: merge under a lock
+                fcntl.flock(lk, fcntl.LOCK_EX)
+                res = json.load(open(resf)) if os.path.exists(resf) else {}
+                res[name] = r
+                json.dump(res, open(resf, 'w'), indent=1, sort_keys=True)
 
 
 if __name__ == '__main__':
